@@ -26,7 +26,7 @@ ASSUMPTIONS = [
     "Output.observables with the snapshot taken before the history (container types and numpy-ness ignored)",
     "kinematic points are valid and few: the property is about the cards, not the numbers",
 ]
-BUDGET = {"quick": {"examples": 2000, "wall": 300}, "thorough": {"examples": 60000, "wall": 3300}}
+BUDGET = {"quick": {"examples": 2000, "wall": 300}, "thorough": {"examples": 60000, "wall": 2400}}
 MANDATORY = {
     t: ["nontrivial", "op:runner", "op:result", "op:update", "op:run_yadism", "alias:kinematics", "numpy:grid", "numpy:kin",
         "legacy:absent", "fns:FONLL", "target:name", "grid:unsorted", "rerun"]
